@@ -62,12 +62,30 @@ def forced_scenarios():
         "cancelh": [S("newh", h="h1"), S("newh", h="h2"), S("join", "p1"), S("cancelh", h="h1"), S("join", "p2"),
                     call("c1", "free"), call("c1", "free"), call("c2", "free", "h2"), call("c2", "free", "h2"), call("c2", "free", "h2")],
     }
+    # handler creation racing with a membership change (the event loop is parked, both are submitted, the loop's select
+    # orders them at random): repeated, with both submission orders, so that both orders of processing are observed
+    R = {
+        "race-join": lambda first: [S("newh", h="h1"), call("c1", "free"), S("racenewh", "p1", h="h2", c=first),
+                                    call("c2", "free", "h2"), call("c2", "free", "h2")],
+        "race-unsub": lambda first: [S("join", "p1"), S("join", "p2"), S("newh", h="h1"), S("racenewh", "p1", h="h2", m="unsub", c=first),
+                                     call("c2", "free", "h2"), call("c2", "free", "h2"), call("c2", "free", "h2")],
+        "race-close": lambda first: [S("join", "p1"), S("racenewh", "p1", h="h2", m="closeOut", c=first),
+                                     call("c2", "free", "h2"), call("c2", "free", "h2"), S("join", "p1"), call("c2", "free", "h2")],
+        "race-join-seeded": lambda first: [S("join", "p2"), S("racenewh", "p1", h="h2", c=first), call("c2", "step", "h2"), call("c2", "step", "h2"),
+                                           call("c2", "step", "h2"), S("leave", "p1", m="down"), S("go", c="c2")],
+    }
     out = []
     for name, steps in F.items():
         for router in ("gossipsub", "floodsub"):
             for nut_sub in (False, True):
                 out.append({"name": "forced:" + name, "cfg": {"router": router, "npeers": 4, "nutSub": nut_sub},
                             "handlerOf": H1, "steps": steps})
+    for name, mk in R.items():
+        for router in ("gossipsub", "floodsub"):
+            for nut_sub in (False, True):
+                for rep in range(4):
+                    out.append({"name": "forced:" + name, "cfg": {"router": router, "npeers": 4, "nutSub": nut_sub},
+                                "handlerOf": {"c1": "h1", "c2": "h2"}, "steps": mk(("change", "handler")[rep % 2])})
     return out
 
 
@@ -83,7 +101,12 @@ def random_scenario(rng, nsteps, npeers=4, nh=3):
         if len(made) < nh and (not made or x < 0.04):
             h = "h%d" % (len(made) + 1)
             made.append(h)
-            steps.append(S("newh", h=h))
+            if rng.random() < 0.5:
+                p = rng.choice(peers)
+                steps.append(S("racenewh", p, h=h))
+                member[p] = not member[p]
+            else:
+                steps.append(S("newh", h=h))
         elif x < 0.40:
             p = rng.choice(peers)
             if member[p]:
@@ -130,7 +153,7 @@ def gen_cfg(L, extras, two_handlers, maxraw, lmin=None):
         "HandlerOf": "HandlerOf <- %sHandlerOf" % g, "MaxRaw": maxraw, "MaxCalls": "MaxCalls <- %sMaxCalls" % g,
         "CtxCancellable": "CtxCancellable <- %sCtx" % g, "HCancellable": "HCancellable <- %sHandlers" % g,
         "Mon": False, "History": False, "Rearm": True, "CoalesceOnEqual": False, "SignalOnInsert": True,
-        "FirstSighting": True, "SeedAtomic": True, "L": L, "Lmin": lmin or L, "Extras": extras}, invariants=["Emit"])
+        "FirstSighting": True, "SeedAtomic": True, "RegisterInThunk": True, "L": L, "Lmin": lmin or L, "Extras": extras}, invariants=["Emit"])
 
 
 def model_check(ctx):
@@ -142,13 +165,15 @@ def model_check(ctx):
            "MCEventLogNoSignal": {"P_C18_NoLostWake"},
            "MCEventLogCoalesceEq": {"M_C18_Replay", "M_C18_Alternate", "M_C18_Elide"},
            "MCEventLogJoinAlways": {"M_C18_Replay", "M_C18_Alternate", "M_C18_Elide"},
-           "MCEventLogSeedLate": {"M_C18_Replay", "M_C18_Alternate", "M_C18_Elide"}}
+           "MCEventLogSeedLate": {"M_C18_Replay", "M_C18_Alternate", "M_C18_Elide"},
+           "MCEventLogRegLate": {"M_C18_Replay", "M_C18_Alternate", "M_C18_Elide"}}
     if not ctx.thorough:    # the safety form of the re-arm variant and the late-seeding variant only at the thorough tier
         bad = {n: v for n, v in bad.items() if n not in ("MCEventLogNoRearmInv", "MCEventLogSeedLate")}
     jobs = [(n, w) for n, w in ok] + [(n, 1) for n in bad]
     res = {}
-    with cf.ThreadPoolExecutor(max_workers=4) as ex:
-        futs = {ex.submit(vlib.run_tlc, ctx, FAMILY, "MCEventLog", n + ".cfg", workers=min(w, 4), timeout=1500, name=n): n for n, w in jobs}
+    # at most 2 JVMs with at most 2 workers each (the rest of the pipeline runs next to them: never more than ~4 TLC workers)
+    with cf.ThreadPoolExecutor(max_workers=2) as ex:
+        futs = {ex.submit(vlib.run_tlc, ctx, FAMILY, "MCEventLog", n + ".cfg", workers=min(w, 2), timeout=1500, name=n): n for n, w in jobs}
         for f in cf.as_completed(futs):
             res[futs[f]] = f.result()
     states = transitions = 0
@@ -191,7 +216,7 @@ def generate(ctx):
     # Lmin..L steps; per length either all of them are replayed or a seeded sample
     caps = {5: 2500, 6: 350} if not ctx.thorough else {6: 100000, 7: 5000}
     lo, hi = min(caps), max(caps)
-    g = vlib.run_tlc(ctx, FAMILY, "MCGenEventLog", gen_cfg(hi, False, False, 6, lmin=lo), timeout=900, name="gen-L%d-%d" % (lo, hi), workers=4, heap="6g")
+    g = vlib.run_tlc(ctx, FAMILY, "MCGenEventLog", gen_cfg(hi, False, False, 6, lmin=lo), timeout=900, name="gen-L%d-%d" % (lo, hi), workers=2, heap="6g")
     allgen = [s for s in take(g, "GenEventLog L=%d..%d" % (lo, hi)) if any(x["a"] == "newh" for x in s["steps"])]
     exhaustive = {}
     for L, cap in sorted(caps.items()):
@@ -387,7 +412,8 @@ def coverage(traces, names):
     """Coverage obligations, counted on validated real traces."""
     hits = {k: 0 for k in ("seeded_handler", "elision_pair", "burst_jlj", "concurrent_calls", "cancelled_call", "handler_cancel",
                            "resub_no_join", "reunsub_no_leave", "disconnect_leave", "closed_stream_leave", "rearm_two_parked",
-                           "signal_while_parked", "ret_join", "ret_leave", "blocked_call", "free_concurrent_wake", "flap", "cancelled_ctx_gets_event")}
+                           "signal_while_parked", "ret_join", "ret_leave", "blocked_call", "free_concurrent_wake", "flap", "cancelled_ctx_gets_event",
+                           "handler_created_just_before_change", "handler_created_just_after_change")}
     for sc in traces:
         mem, live, handlers = set(sc[0].get("mem", [])), set(), set()
         pend = {}           # peer -> number of membership changes since the last consumption (while a handler is live)
@@ -435,6 +461,8 @@ def coverage(traces, names):
                         hits["signal_while_parked"] += 1
                 mem = new
                 last_stim = None
+            elif k == "raceorder":
+                hits["handler_created_just_before_change" if e["order"] == "handler-first" else "handler_created_just_after_change"] += 1
             elif k == "cancel":
                 dead_ctx.add(e["ctx"])
             elif k == "call":
@@ -502,7 +530,7 @@ def run(ctx):
     keep = sorted(by)
     scns = [scns[i] for i in keep]
     skips = sum(1 for i in keep for l in by[i] if l["e"] == "skip")
-    traces = [[l for l in by[i] if l["e"] != "skip"] for i in keep]
+    traces = [[l for l in by[i] if l["e"] != "skip"] for i in keep]     # raceorder lines are informational: coverage only
     lines = [l for t in traces for l in t]
     if not traces:
         raise vlib.Inconclusive("the driver recorded nothing")
@@ -516,8 +544,16 @@ def run(ctx):
         traces, scns = [traces[i] for i in keep2], [scns[i] for i in keep2]
     ctx.log("driver: %d scenarios, %d lines, %d skipped steps" % (len(traces), len(lines), skips))
 
-    rej, acc, tv_states = vlib.validate_by_cursor(ctx, FAMILY, "EventLogTrace", "EventLogTrace.cfg", traces, chunk=(1300 if not ctx.thorough else 850),
-                                                  max_rejects=4, timeout=1200, name="tv")
+    tv_in = [[l for l in sc if l["e"] != "raceorder"] for sc in traces]
+    # trace validation, at most 2 TLC processes (1 worker each) at a time: groups of two chunks
+    chunk = 1300 if not ctx.thorough else 850
+    rej, acc, tv_states = [], 0, 0
+    for g0 in range(0, len(tv_in), 2 * chunk):
+        r1, a1, s1 = vlib.validate_by_cursor(ctx, FAMILY, "EventLogTrace", "EventLogTrace.cfg", tv_in[g0:g0 + 2 * chunk], chunk=chunk,
+                                             max_rejects=4, timeout=1200, name="tv-g%d" % g0)
+        rej += [(i + g0, k, inv) for (i, k, inv) in r1]
+        acc += a1
+        tv_states += s1
     states += tv_states
     if not dev:
         s2, t2, mc = mc_f.result()          # raises Inconclusive if the model level is not as it must be
@@ -547,7 +583,7 @@ def run(ctx):
                          % (wname, len(where), *sorted(where)[0]))
     drift, rejected_idx = 0, set()
     for (i, k, inv) in rej:
-        sc = traces[i]
+        sc = tv_in[i]
         rejected_idx.add(i)
         bad = sc[k] if k < len(sc) else None
         names = set(viol.get((sc[0]["scn"], k), set()))
@@ -587,7 +623,8 @@ def run(ctx):
     hits = coverage(good, None)
     need = ["seeded_handler", "elision_pair", "burst_jlj", "concurrent_calls", "cancelled_call", "handler_cancel", "resub_no_join",
             "reunsub_no_leave", "disconnect_leave", "closed_stream_leave", "rearm_two_parked", "signal_while_parked",
-            "ret_join", "ret_leave", "blocked_call", "flap", "cancelled_ctx_gets_event"]
+            "ret_join", "ret_leave", "blocked_call", "flap", "cancelled_ctx_gets_event",
+            "handler_created_just_before_change", "handler_created_just_after_change"]
     missing = [n for n in need if not hits.get(n)]
     if missing and not ctx.violations:
         raise vlib.Inconclusive("coverage obligation not met: never observed on a validated trace: %s" % missing)
